@@ -17,8 +17,10 @@ import (
 	"bytes"
 	"compress/gzip"
 	"database/sql"
+	"encoding/base64"
 	"encoding/binary"
 	"encoding/csv"
+	"encoding/json"
 	"fmt"
 	"math"
 	"mime/multipart"
@@ -53,6 +55,8 @@ const (
 	kfC04PartialStore     = "C04-partial-store-on-reject"
 	kfC04TLEShortLine     = "C04-tle-short-line1-panic"
 	kfC04SchemaCacheAlias = "C04-schema-cache-key-alias"
+	kfC04InvalidUTF8      = "C04-invalid-utf8-stored"
+	kfC04ParquetNilDeref  = "C04-parquet-import-nil-deref"
 )
 
 const c04BaseMicros = int64(1_700_000_000_000_000)
@@ -174,6 +178,7 @@ type c04Req struct {
 	Rows    []c04Row `json:",omitempty"`
 	NRows   int      // rows an acceptance stores when only the count is known (-1 unknown)
 	Opaque  bool     // bytes were mutated / raw: the request's structure is not known
+	preWrap []byte   // body before the compression wrapper (not serialised)
 	// outcome (filled while running; kept for the replay file)
 	Status int   `json:",omitempty"`
 	Delta  int64 `json:",omitempty"`
@@ -1159,6 +1164,7 @@ func (g *c04Gen) rawRequest() *c04Req {
 		r.Body = body
 	}
 	r.Desc = fmt.Sprintf("raw %d bytes to %s", len(body), r.Path)
+	r.preWrap = r.Body
 	return r
 }
 
@@ -1191,12 +1197,35 @@ func (g *c04Gen) request() *c04Req {
 		r.Desc += " +mutated"
 	default:
 	}
+	r.preWrap = r.Body
 	g.wrap(r)
 	return g.finish(r)
 }
 
+// c04TextEndpoint reports whether the endpoint takes a text body (LP, CSV, TLE).
+func c04TextEndpoint(path string) bool {
+	return !strings.Contains(path, "msgpack") && !strings.Contains(path, "parquet")
+}
+
+func c04HasCompressionMagic(b []byte) bool {
+	return (len(b) >= 2 && b[0] == 0x1f && b[1] == 0x8b) || (len(b) >= 4 && b[0] == 0x28 && b[1] == 0xb5 && b[2] == 0x2f && b[3] == 0xfd)
+}
+
 // finish applies body-level exclusions of open findings.
 func (g *c04Gen) finish(r *c04Req) *c04Req {
+	if r.Opaque && r.preWrap != nil && c04TextEndpoint(r.Path) && !c04HasCompressionMagic(r.preWrap) && verifkit.Excluded(kfC04InvalidUTF8) {
+		// keep text payloads valid UTF-8 (the bytes before any compression wrapper)
+		if fixed := bytes.ToValidUTF8(r.preWrap, []byte("?")); !bytes.Equal(fixed, r.preWrap) {
+			verifkit.CountExcluded(kfC04InvalidUTF8)
+			if bytes.Equal(r.Body, r.preWrap) {
+				r.Body = fixed
+			} else {
+				// a wrapper was applied on top: rebuild it as plain gzip
+				r.Body = c04Gzip(fixed)
+				r.Desc += " (re-wrapped as gzip after UTF-8 fix)"
+			}
+		}
+	}
 	if strings.Contains(r.Path, "/tle") && verifkit.Excluded(kfC04TLEShortLine) {
 		body := r.Body
 		if c04TLEShortLine1(body) {
@@ -1254,12 +1283,14 @@ func c04ReadStore(root string, dropUnderscore bool) (duck.Multiset, int64, *c04F
 	}
 	ms := duck.Multiset{}
 	var total int64
+	var unreadable []string
 	for _, f := range duck.FindParquet(root) {
 		rel, _ := filepath.Rel(root, f)
 		parts := strings.Split(filepath.ToSlash(rel), "/")
 		tb, err := duck.ReadParquet(db, []string{f})
 		if err != nil {
-			return nil, 0, &c04Failure{"stored-file-unreadable", fmt.Sprintf("%s: %v", rel, err)}
+			unreadable = append(unreadable, fmt.Sprintf("%s: %v", rel, err))
+			continue
 		}
 		total += int64(len(tb.Rows))
 		for _, m := range tb.RowMaps() {
@@ -1276,7 +1307,21 @@ func c04ReadStore(root string, dropUnderscore bool) (duck.Multiset, int64, *c04F
 			ms[duck.RowKey(m, true)]++
 		}
 	}
+	if len(unreadable) > 0 {
+		return ms, total, &c04Failure{"stored-file-unreadable", strings.Join(unreadable, "\n  ")}
+	}
 	return ms, total, nil
+}
+
+// c04OnlyUTF8Errors reports whether every unreadable-file message is DuckDB's
+// invalid-UTF-8 complaint (value or column name).
+func c04OnlyUTF8Errors(detail string) bool {
+	for _, l := range strings.Split(detail, "\n") {
+		if !strings.Contains(l, "not valid UTF8") && !strings.Contains(l, "Invalid unicode") {
+			return false
+		}
+	}
+	return true
 }
 
 func c04IsRecoveredPanic(stderr string) bool {
@@ -1332,12 +1377,25 @@ func c04RunSeq(s *c04Seq) *c04Failure {
 	dropUnderscore := verifkit.Excluded(kfC04UnderscoreDrop)
 	var acceptedTotal int64
 	var knownRows []c04Row
+	opaqueAccepted := false
 	for i, r := range s.Reqs {
 		resp, died, diag := child.do(c04Cmd{Op: "req", Method: r.Method, Path: r.Path, Headers: r.Headers, Body: r.Body})
 		if died {
 			return &c04Failure{"process-crash", fmt.Sprintf("request #%d (%s) killed the server process: %s", i, r.Desc, diag)}
 		}
-		if se := child.stderrNew(); c04IsRecoveredPanic(se) {
+		if se, crashed, cdiag := child.panicSeen(); crashed {
+			return &c04Failure{"process-crash", fmt.Sprintf("request #%d (%s) -> %d, then the server process died: %s", i, r.Desc, resp.Status, cdiag)}
+		} else if se != "" {
+			// Open finding C04-parquet-import-nil-deref: arrow-go's reader panics on
+			// some corrupt files; only byte-mutated / raw bodies can reach it.
+			if r.Opaque && strings.Contains(r.Path, "/import/parquet") && strings.Contains(se, "pqarrow.(*FileReader)") &&
+				resp.Status == 500 && verifkit.Excluded(kfC04ParquetNilDeref) {
+				verifkit.CountExcluded(kfC04ParquetNilDeref)
+				if resp.After.Buffered != resp.Before.Buffered {
+					return &c04Failure{"rejected-request-stored-rows", fmt.Sprintf("request #%d (%s) panicked in the parquet reader yet appended rows", i, r.Desc)}
+				}
+				continue
+			}
 			return &c04Failure{"handler-panic", fmt.Sprintf("request #%d (%s) -> %d: panic recovered by the middleware: %s", i, r.Desc, resp.Status, c04PanicHead(se))}
 		}
 		if resp.Err != "" {
@@ -1364,6 +1422,9 @@ func c04RunSeq(s *c04Seq) *c04Failure {
 			continue
 		}
 		acceptedTotal += r.Delta
+		if r.Opaque {
+			opaqueAccepted = true
+		}
 		if r.Known {
 			if int64(len(r.Rows)) != r.Delta {
 				return &c04Failure{"accepted-row-count", fmt.Sprintf("request #%d (%s) answered %d but buffered %d rows, payload has %d",
@@ -1380,7 +1441,9 @@ func c04RunSeq(s *c04Seq) *c04Failure {
 	if died {
 		return &c04Failure{"process-crash", "final flush killed the server process: " + diag}
 	}
-	if se := child.stderrNew(); c04IsRecoveredPanic(se) {
+	if se, crashed, cdiag := child.panicSeen(); crashed {
+		return &c04Failure{"process-crash", "server process died after the final flush: " + cdiag}
+	} else if se != "" {
 		return &c04Failure{"handler-panic", fmt.Sprintf("final flush -> %d: panic recovered by the middleware: %s", resp.Status, c04PanicHead(se))}
 	}
 	if resp.Status != 200 {
@@ -1397,13 +1460,22 @@ func c04RunSeq(s *c04Seq) *c04Failure {
 	if died {
 		return &c04Failure{"process-crash", "server process died during Close(): " + diag}
 	}
-	if se := child.stderrNew(); c04IsRecoveredPanic(se) {
+	if se, crashed, cdiag := child.panicSeen(); crashed {
+		return &c04Failure{"process-crash", "server process died after Close(): " + cdiag}
+	} else if se != "" {
 		return &c04Failure{"handler-panic", "panic output after Close(): " + c04PanicHead(se)}
 	}
 	clean = true
 
 	stored, total, fail := c04ReadStore(root, dropUnderscore)
 	if fail != nil {
+		// Open finding C04-invalid-utf8-stored: text payloads are kept valid UTF-8 by
+		// construction; a byte-mutated binary payload (msgpack, parquet) that was
+		// accepted can still carry a bad string or column name.
+		if fail.Class == "stored-file-unreadable" && opaqueAccepted && verifkit.Excluded(kfC04InvalidUTF8) && c04OnlyUTF8Errors(fail.Detail) {
+			verifkit.CountExcluded(kfC04InvalidUTF8)
+			return nil
+		}
 		return fail
 	}
 	if total != acceptedTotal {
@@ -1441,6 +1513,9 @@ func (s *c04Seq) summary() map[string]any {
 }
 
 func TestVerifC04_HostileSequences(t *testing.T) {
+	if strings.HasSuffix(os.Getenv("VERIF_REPLAY_FILE"), ".json") {
+		t.Skip("replaying a saved sequence (TestVerifC04_Replay)")
+	}
 	rapid.Check(t, func(t *rapid.T) {
 		s, g := c04GenSeq(t)
 		fail := c04RunSeq(s)
@@ -1480,6 +1555,32 @@ func TestVerifC04_HostileSequences(t *testing.T) {
 			t.Fatalf("VERIF-FAIL class=C04/%s\n  %s\nsequence=%v", fail.Class, fail.Detail, s.summary())
 		}
 	})
+}
+
+// TestVerifC04_Replay re-runs a saved sequence (replay/C04/c04-sequence-*.json,
+// written by the property above) through `vcheck replay C04 <file>`.
+func TestVerifC04_Replay(t *testing.T) {
+	p := os.Getenv("VERIF_REPLAY_FILE")
+	if p == "" || !strings.HasSuffix(p, ".json") {
+		t.Skip("no VERIF_REPLAY_FILE")
+	}
+	b, err := os.ReadFile(p)
+	if err != nil {
+		t.Fatalf("read replay: %v", err)
+	}
+	var s c04Seq
+	if err := json.Unmarshal(b, &s); err != nil {
+		t.Fatalf("decode replay: %v", err)
+	}
+	for _, r := range s.Reqs {
+		if r.Method == "" {
+			r.Method = "POST"
+		}
+	}
+	if fail := c04RunSeq(&s); fail != nil {
+		t.Fatalf("VERIF-FAIL class=C04/%s\n  %s\nsequence=%v", fail.Class, fail.Detail, s.summary())
+	}
+	t.Logf("sequence held: %v", s.summary())
 }
 
 // ---------------------------------------------------------------- known findings
@@ -1540,11 +1641,14 @@ func c04Play(cfg c04ServerCfg, reqs []*c04Req, flush bool) (*c04PlayResult, erro
 			res.crashed, res.crash = true, diag
 			return res, nil
 		}
-		if se := child.stderrNew(); c04IsRecoveredPanic(se) {
-			res.panics = append(res.panics, c04PanicHead(se))
-		}
 		res.statuses = append(res.statuses, resp.Status)
 		res.deltas = append(res.deltas, resp.After.Buffered-resp.Before.Buffered)
+		if se, crashed, cdiag := child.panicSeen(); crashed {
+			res.crashed, res.crash = true, cdiag
+			return res, nil
+		} else if se != "" {
+			res.panics = append(res.panics, c04PanicHead(se))
+		}
 	}
 	if _, died, diag := child.do(c04Cmd{Op: "quiesce"}); died {
 		res.crashed, res.crash = true, diag
@@ -1689,4 +1793,71 @@ func TestVerifKF_C04_schema_cache_alias(t *testing.T) {
 		}
 	}
 	verifkit.KnownFinding(kfC04SchemaCacheAlias, rep, what)
+}
+
+// Candidate inputs whose strings are not valid UTF-8 and are not sanitised on
+// their way to Parquet: each is sent alone to a fresh server; "reproduced" means
+// the request was accepted and DuckDB cannot read the file it produced.
+func TestVerifKF_C04_invalid_utf8_stored(t *testing.T) {
+	ts := strconv.FormatInt(c04BaseMicros*1000, 10)
+	csvReq := func(file string) *c04Req {
+		r := &c04Req{Method: "POST", Path: "/api/v1/import/csv?db=default&measurement=cpu&time_format=epoch_us"}
+		c04Multipart(r, "d.csv", []byte(file))
+		return r
+	}
+	_, l1, l2 := c04TLEEntry(25544, 1.5)
+	cands := []struct {
+		name string
+		req  *c04Req
+	}{
+		{"lp tag value", &c04Req{Method: "POST", Path: "/write?db=default", Body: []byte("cpu,host=a\xffb v=1i " + ts)}},
+		{"lp tag key", &c04Req{Method: "POST", Path: "/write?db=default", Body: []byte("cpu,ho\xffst=a v=1i " + ts)}},
+		{"lp field key", &c04Req{Method: "POST", Path: "/write?db=default", Body: []byte("cpu v\xff=1i " + ts)}},
+		{"msgpack column name", c04MsgpackReq("", c04Columnar("cpu", mpMap{{"time", []any{c04BaseMicros}}, {"v\xff", []any{int64(1)}}}))},
+		{"msgpack row tag value", c04MsgpackReq("", mpMap{{"m", "cpu"}, {"t", c04BaseMicros / 1000}, {"fields", mpMap{{"v", int64(1)}}}, {"tags", mpMap{{"host", "a\xffb"}}}})},
+		{"csv cell", csvReq("time,s\n" + strconv.FormatInt(c04BaseMicros, 10) + ",a\xffb\n")},
+		{"csv header", csvReq("time,s\xff\n" + strconv.FormatInt(c04BaseMicros, 10) + ",ab\n")},
+		{"tle object name", &c04Req{Method: "POST", Path: "/api/v1/write/tle", Body: []byte("SAT\xff\n" + l1 + "\n" + l2 + "\n")}},
+	}
+	var hit []string
+	for _, c := range cands {
+		res, err := c04Play(c04ServerCfg{MaxBufferSize: 100}, []*c04Req{c.req}, true)
+		switch {
+		case res != nil && res.crashed:
+			t.Logf("%-24s crashed: %s", c.name, res.crash)
+		case err != nil && len(res.statuses) > 0 && res.statuses[0] < 300 && strings.Contains(err.Error(), "stored-file-unreadable"):
+			t.Logf("%-24s -> %d, file unreadable: %v", c.name, res.statuses[0], err)
+			hit = append(hit, c.name)
+		case err != nil:
+			t.Logf("%-24s play error: %v", c.name, err)
+		default:
+			t.Logf("%-24s -> %v rows=%d (readable)", c.name, res.statuses, res.rows)
+		}
+	}
+	verifkit.KnownFinding(kfC04InvalidUTF8, len(hit) > 0,
+		"accepted requests whose strings are not valid UTF-8 produce Parquet files DuckDB refuses to read; paths: "+strings.Join(hit, ", "))
+}
+
+// Minimal input: a 606-byte Parquet file (one row; columns time:int64,
+// "1":timestamp[ms], host:float64 written by arrow-go 18.6.0, then two mutated
+// bytes) on which arrow-go's pqarrow.FileReader.ReadRowGroups dereferences nil.
+const c04BadParquetB64 = "UEFSMRUEFRAVEEwVAhUAEgAAAEAeGCQKBgAVABUSFRIsFQIVEBUGHhgkCgYAGAgAQB4YJAoGABYAFgAYCABAHhgkCgYAGAgAQB4YJAoGAAAAAAIAAAACAQECABUEFRAVEEwVAhUAEgAAAGjlz4sBAAAVABUSFRIsFQIVEBUGFQYcGAgAaOXPiwEAABgIAGjlz4sBAAAWABYAGAgAaOXPiwEAABgIAGjlz4sBAAAAAAACAAAAAgEBAgAVBBUAFQBMFQAVABIAABUAFQ4VDiwVAhUQFQYVBhw2AhYAAAAAAgAAAAIAABUEGUxIBnNjaGVtYRUGABUEJQIYBHRpbWUlJEysE0ARAAAAFQQlAhgBMSUSTIwSHBwAAAAAABUKJQIYBGhvc3QAFgIZHBk8JgAcFQQZNRAABhkYBHRpbWUVABYCFrwBFrwBJjQmCBwYCABAHhgkCgYAGAgAQB4YJAoGABYAFgAYCABAHhgkCgYAGAgAQB4YJAoGAAAZLBUEFQAVAgAVABUQFQIAAAAmABwVBBk1EAAGGRgBMRUAFgIWvAEWvAEm8AEmxAEcGAgAaOXPiwEAABgIAGjlz4sBAAAWABYAGAgAaOXPiwEAABgIAGjlz4sBAAAAGSwVBBUAFQIAFQAVEBUCAAAAJgAcFQoZNRAABhkYBGhvc3QVABYCFlgWWCacAyaAAxw2AhYAABksFQQVABUCABUAFRAVAgAAABbQAxYCJggW0AMUAAAZDBgZcGFycXVldC1nbyB2ZXJzaW9uIDE4LjYuMBk8HAAAHAAAHAAAAHEBAABQQVIx"
+
+func TestVerifKF_C04_parquet_import_nil_deref(t *testing.T) {
+	file, err := base64.StdEncoding.DecodeString(c04BadParquetB64)
+	if err != nil {
+		t.Fatalf("b64: %v", err)
+	}
+	r := &c04Req{Method: "POST", Path: "/api/v1/import/parquet?db=default&measurement=mem&time_format=epoch_us"}
+	c04Multipart(r, "data.parquet", file)
+	res, err := c04Play(c04ServerCfg{MaxBufferSize: 100}, []*c04Req{r}, false)
+	rep := false
+	what := "POST /api/v1/import/parquet with a 606-byte corrupt file -> nil pointer dereference in pqarrow.(*FileReader).ReadRowGroups (arrow-go), recovered as 500"
+	if err != nil {
+		t.Logf("play: %v", err)
+	} else {
+		rep = len(res.panics) > 0 && strings.Contains(res.panics[0], "nil pointer dereference") && strings.Contains(res.panics[0], "pqarrow")
+		t.Logf("statuses=%v panics=%v crashed=%v", res.statuses, res.panics, res.crashed)
+	}
+	verifkit.KnownFinding(kfC04ParquetNilDeref, rep, what)
 }
